@@ -87,7 +87,9 @@ class _mpf(mpnumeric):
         if isinstance(x, float): return from_float(x)
         if isinstance(x, basestring): return from_str(x, prec, rounding)
         # (also a constant of another context: it has no value of its own)
-        if isinstance(x, _constant): return x.func(prec, rounding)
+        if isinstance(x, _constant) and (not x.contextual or
+            isinstance(x, cls.context.constant)):
+            return x.func(prec, rounding)
         if hasattr(x, '_mpf_'): return x._mpf_
         if isinstance(x, rational.mpq):
             p, q = x._mpq_
@@ -342,6 +344,10 @@ class _constant(_mpf):
     When printed or used in an arithmetic operation, a constant
     is converted to a regular mpf at the working precision. A
     regular mpf can also be obtained using the operation +x."""
+
+    # (set for a quantity of the context itself, eps: another context takes
+    # its current value instead of evaluating it at its own precision)
+    contextual = False
 
     def __new__(cls, func, name, docname=''):
         a = object.__new__(cls)
@@ -696,7 +702,7 @@ class PythonMPContext(object):
                 return ctx.make_mpf(_mpf_)
             except ValueError:
                 pass
-        if isinstance(x, _constant):
+        if isinstance(x, _constant) and not x.contextual:
             # a constant of another context: evaluated in this one
             return ctx.make_mpf(x.func(prec, rounding))
         if hasattr(x, '_mpf_'): return ctx.make_mpf(x._mpf_)
